@@ -12,6 +12,14 @@ e2.run_harness(c, c.d, 'dice-bit-exact-2^31', src, ['LIMIT=2147483648LL'], unwin
 if c.tier == 'thorough':
     e2.run_harness(c, c.d, 'dice-bit-exact-2^52', src, ['LIMIT=4503599627370496LL'], unwind=65, timeout=1800, backend=('--sat-solver', 'cadical'), link_lib=True)
 
+# E2: the probability law implied by the alias table, IEEE bit-exact, probabilities on a grid of tenths (every vector of
+# three multiples of 0.05 within the accepted tolerance of one, in every order)
+asrc = os.path.join(build.VERIF, 'cbmc', 'c16_alias.c')
+e2.run_harness(c, c.d, 'alias-law-n3-twentieths', asrc, ['NN=3', 'GRID=20'], unwind=5, timeout=900, link_lib=True)
+if c.tier == 'thorough':
+    e2.run_harness(c, c.d, 'alias-law-n2-thousandths', asrc, ['NN=2', 'GRID=1000'], unwind=5, timeout=1800, link_lib=True)
+    e2.run_harness(c, c.d, 'alias-law-n4-tenths', asrc, ['NN=4', 'GRID=10'], unwind=6, timeout=2400, link_lib=True)
+
 fams = []
 def fam(name, entry, tier='quick', witness=False, w=1, opts=None, **kw):
     defs = ['%s=%s' % (k, v) for k, v in kw.items()] + (['WITNESS=1'] if witness else [])
@@ -49,6 +57,15 @@ zfam('t-dist', 'e_chisq_f_t', 5, layers=(1, 250), SHAPE_SYM=0, NSHAPE=2, WHICH=2
 zfam('exponential-erlang-hypo-hyper-weibull', 'e_exp_family', 3, w=2)
 zfam('normal-lognormal-rayleigh-cauchy', 'e_normal_family', 3, w=3)
 zfam('poisson', 'e_poisson', 4, w=4)
+# the fall-back paths of the two ziggurat samplers themselves (alias sampling of the overhangs, reflections, tail iteration)
+def nhfam(name, entry, layers, md=4, tier='quick', w=10):
+    fam(name, entry, tier=tier, w=w, opts={'exact_roots': 0, 'unknown_both': 1, 'query_timeout_ms': 10000, 'enum_limit': 300, 'max_draws': md, 'draw_low_bytes': list(layers)})
+SIX = (0, 1, 2, 128, 254, 255)
+nhfam('exponential-fallback-path', 'e_exp_nothot', SIX, w=3)
+nhfam('normal-fallback-path', 'e_nor_nothot', SIX, w=12)
+L32 = tuple(sorted(set(list(range(0, 256, 8)) + [1, 2, 253, 254, 255])))
+nhfam('exponential-fallback-path-37-layers', 'e_exp_nothot', L32, tier='thorough', w=40)
+nhfam('normal-fallback-path-37-layers', 'e_nor_nothot', L32, tier='thorough', w=60)
 ALL_LAYERS = tuple(range(0, 253))
 zfam('exponential-family-all-layers', 'e_exp_family', 3, layers=ALL_LAYERS, tier='thorough', w=30)
 zfam('normal-family-all-layers', 'e_normal_family', 3, layers=ALL_LAYERS, tier='thorough', w=40)
@@ -57,13 +74,13 @@ zfam('std-gamma-any-shape-deeper', 'e_std_gamma', 4, layers=(1, 250), SHAPE_SYM=
 c.run_e1(fams, assumptions=['every call of cmb_random_sfc64 returns an arbitrary 64-bit value (a sound over-approximation of the stream for a support claim)',
                             'E1: parameters and arithmetic are exact reals (rounding outside); exp/log/pow are uninterpreted functions with sign/monotonicity contracts; E2: doubles bit-exact',
                             'geometric / negative binomial / exponential: only the ziggurat hot path (table look-up, about 98.9 % of the draws); paths entering cmi_random_exp_not_hot are cut', 'samplers built on the ziggurat (normal, lognormal, Rayleigh, Cauchy, exponential, Erlang, hypo-/hyperexponential, Weibull, Poisson, gamma, beta, PERT, chi-squared, F, t) and the logistic: hot paths of the ziggurat for the listed layers (low byte of the raw draw: quick 1-4 layers, thorough all 253 for the one-draw samplers), rejection / redraw loops cut after max_draws raw draws per call chain (3-6), shape parameters: std_gamma any shape in [0.01, 4] for the first iteration, the others for 2-4 concrete shapes on both sides of 1 (0.125, 0.5, 1, 2.5), PERT for three concrete (min, mode, max) triples',
-                            'NOT decided here: uniform/triangular under IEEE rounding (CBMC: no verdict in 300 s), the not-hot paths of the two ziggurat samplers (cmi_random_exp_not_hot / cmi_random_nor_not_hot, about 1.1 % of the draws) and the generated tables themselves, floating-point underflow / overflow in the composed samplers (exact reals)',
+                            'NOT decided here: uniform/triangular under IEEE rounding (CBMC: no verdict in 300 s), the fall-back paths of the two ziggurat samplers beyond the listed index bytes (6 quick, 37 thorough, of 256) and 4 raw draws; the generated tables are read as constants (every look-up is bounds-checked, the geometry itself is not verified), floating-point underflow / overflow in the composed samplers (exact reals)',
                             'a branch whose feasibility the solver leaves undecided within 10 s is followed on both sides (every assertion on it is still decided, a violation still needs a model); such paths are counted as feasibility_undecided in the evidence parts',
-                            'NOT applicable: "samples follow the stated distribution ... converge": a limit statement about infinitely many draws'],
+                            'NOT applicable: "samples follow the stated distribution ... converge": a limit statement about infinitely many draws; the one exception decided here is the law implied by an alias table (a finite exact statement): E2, IEEE doubles, three probabilities on a grid of twentieths (thorough: two on thousandths, four on tenths)'],
          bounds=['dice: all a < b within +-2^31 (thorough 2^52) and every draw; loaded dice / alias tables with 1-3 (thorough 4) symbolic probabilities summing to one within 1e-3; geometric / negative binomial at p = 1 (thorough also 0.5)'])
 c.finish(functions=['cmb_random (header)', 'cmb_random_uniform', 'cmb_random_bernoulli', 'cmb_random_flip', 'cmb_random_triangular', 'cmb_random_dice', 'cmb_random_loaded_dice',
                     'cmb_random_alias_create/sample', 'cmb_random_pareto', 'cmb_random_binomial', 'cmb_random_geometric', 'cmb_random_negative_binomial', 'cmb_random_std_exponential (hot path)',
-                    'cmb_random_std_normal (hot path)', 'cmb_random_normal', 'cmb_random_lognormal', 'cmb_random_logistic', 'cmb_random_cauchy', 'cmb_random_rayleigh', 'cmb_random_exponential', 'cmb_random_erlang',
+                    'cmb_random_std_normal (hot path)', 'cmi_random_exp_not_hot', 'cmi_random_nor_not_hot', 'cmb_random_normal', 'cmb_random_lognormal', 'cmb_random_logistic', 'cmb_random_cauchy', 'cmb_random_rayleigh', 'cmb_random_exponential', 'cmb_random_erlang',
                     'cmb_random_hypoexponential', 'cmb_random_hyperexponential', 'cmb_random_weibull', 'cmb_random_poisson', 'cmb_random_std_gamma', 'cmb_random_gamma', 'cmb_random_std_beta', 'cmb_random_beta',
                     'cmb_random_PERT', 'cmb_random_PERT_mod', 'cmb_random_chisquared', 'cmb_random_F_dist', 'cmb_random_std_t_dist', 'cmb_random_t_dist'],
          trusted=['cbmc 6.11 (SAT, IEEE semantics)', 'E1 interpreter', 'z3 5.1'],
